@@ -37,7 +37,12 @@ func (c17) Phases(env run.Env) []run.Phase {
 	return []run.Phase{{Name: "publish-grid", N: 288}, {Name: "subscribe-grid", N: 4 * len(c17SubIDs) * 2}, {Name: "topic-filter", N: 2}}
 }
 
+var c17Tokens = []string{"$share/g", "$share/workers", "$share/g/t", "$SYS/#", "+", "#", "a/+/b", "/", "//", "$share//t", "+/#"}
+
 func word(r *gen.RNG) string {
+	if r.Chance(1, 6) { // filters and topics that mean something to MQTT software; none is empty
+		return c17Tokens[r.Intn(len(c17Tokens))]
+	}
 	n := 1 + r.Intn(12)
 	b := make([]byte, n)
 	for i := range b {
